@@ -649,7 +649,7 @@ pub fn worker_check(state: &Json, ctx: &mut Ctx) {
         );
     } else {
         let prog: Program = serde_json::from_value(state["prog"].clone()).expect("program");
-        let reg = elaborate(&prog).registry;
+        let reg = with_qualified_compact(state["qualified_compact"].as_bool().unwrap_or(false), || elaborate(&prog).registry);
         let ids: Vec<u32> = (0..reg.types.len() as u32).collect();
         let src = prog.to_source();
         for (i, sp) in specs().iter().enumerate() {
@@ -661,7 +661,7 @@ pub fn worker_check(state: &Json, ctx: &mut Ctx) {
                 &ids,
                 seeds,
                 sp,
-                &|id, seed| json!({"check": "C14", "state": {"prog": serde_json::to_value(&prog).unwrap(), "seeds": seed + 1, "all_settings": i > 0}, "id": id, "source": src}),
+                &|id, seed| json!({"check": "C14", "state": {"prog": serde_json::to_value(&prog).unwrap(), "seeds": seed + 1, "all_settings": i > 0, "qualified_compact": state["qualified_compact"].as_bool().unwrap_or(false)}, "id": id, "source": src}),
                 ctx,
             );
         }
@@ -701,6 +701,29 @@ pub fn run(tier: &str, seed: u64) -> i32 {
         for (_, s) in all {
             if crate::checks::c05::wf5_ok(&s) {
                 states.push(js(json!({"prog": serde_json::to_value(s.program()).unwrap(), "seeds": seeds, "all_settings": true})));
+            }
+        }
+    }
+    // the spelling variant `codec::Compact<..>` of every D-arms type that mentions a Compact
+    {
+        fn mentions_compact(t: &Ty) -> bool {
+            match t {
+                Ty::Compact(_) => true,
+                Ty::Named(_, a) | Ty::Tuple(a) => a.iter().any(mentions_compact),
+                Ty::Vec(x) | Ty::VecDeque(x) | Ty::Box(x) | Ty::Cow(x) | Ty::BTreeSet(x) | Ty::BinaryHeap(x) | Ty::Array(x, _) | Ty::Option(x) | Ty::Range(x) | Ty::RangeInclusive(x) => {
+                    mentions_compact(x)
+                }
+                Ty::Result(a, b_) | Ty::BTreeMap(a, b_) => mentions_compact(a) || mentions_compact(b_),
+                _ => false,
+            }
+        }
+        let a = DArms { max_depth: 2 };
+        let (all, _, _) = enumerate(&a, 2, 1_000_000);
+        for (_, s) in &all {
+            if mentions_compact(&s.expr) {
+                for pos in [Position::NamedStruct, Position::TupleVariant] {
+                    states.push(js(json!({"prog": serde_json::to_value(arms_program(&s.expr, pos, false, "N")).unwrap(), "seeds": seeds, "qualified_compact": true})));
+                }
             }
         }
     }
